@@ -65,4 +65,103 @@ Qed.
 Theorem build_resume ts1 ts2 x : get (fold_left exec ts2 (build ts1)) x = get (build (ts1 ++ ts2)) x.
 Proof. unfold build. now rewrite fold_left_app. Qed.
 
+(* ---------------- order independence: what a resumed or re-ordered run records ---------------- *)
+
+(* histories are written most recent task first (as `lin` takes them) *)
+Definition outs_has (t : atask) (x : nat) : bool := existsb (Nat.eqb x) (at_outs t).
+Definition produced (h : list atask) (x : nat) : Prop := exists t, In t h /\ outs_has t x = true.
+
+(* well ordered: no task reads what it writes; a path is written by one task only; nobody reads a path before it is written *)
+Fixpoint WO (h : list atask) : Prop :=
+  match h with
+  | [] => True
+  | t :: earlier =>
+    (forall i, In i (at_ins t) -> outs_has t i = false) /\
+    (forall o, outs_has t o = true -> ~ produced earlier o) /\
+    (forall u, In u earlier -> forall i, In i (at_ins u) -> outs_has t i = false) /\
+    WO earlier
+  end.
+
+Fixpoint producer (h : list atask) (x : nat) : option atask :=
+  match h with [] => None | t :: e => if outs_has t x then Some t else producer e x end.
+
+Lemma producer_in h x t : producer h x = Some t -> In t h /\ outs_has t x = true.
+Proof.
+  induction h as [|u e IH]; simpl; [discriminate|].
+  destruct (outs_has u x) eqn:E; intros H.
+  - injection H as <-. auto.
+  - destruct (IH H). auto.
+Qed.
+
+Lemma producer_none h x : producer h x = None -> ~ produced h x.
+Proof.
+  induction h as [|u e IH]; simpl; intros H [t [Hin Ho]]; [destruct Hin|].
+  destruct (outs_has u x) eqn:E; [discriminate|].
+  destruct Hin as [<-|Hin]; [congruence|]. apply (IH H). exists t. auto.
+Qed.
+
+Lemma producer_some h x : produced h x -> exists t, producer h x = Some t.
+Proof. intros HP. destruct (producer h x) eqn:E; eauto. exfalso. eapply producer_none; eauto. Qed.
+
+(* under WO, the record of a path does not depend on tasks that come later and do not write it *)
+Lemma lin_fixpoint h : WO h -> forall x,
+  lin h x = match producer h x with
+            | Some t => Node (Some (at_payload t)) (map (fun i => (i, lin h i)) (at_ins t))
+            | None => empty
+            end.
+Proof.
+  induction h as [|t e IH]; intros W x; simpl; [reflexivity|].
+  destruct W as [W1 [W2 [W3 W4]]]. fold (outs_has t x).
+  destruct (outs_has t x) eqn:E.
+  - f_equal. apply map_ext_in. intros i Hi. fold (outs_has t i). now rewrite (W1 i Hi).
+  - rewrite (IH W4 x). destruct (producer e x) as [u|] eqn:Pe; [|reflexivity].
+    f_equal. apply map_ext_in. intros i Hi. fold (outs_has t i).
+    destruct (producer_in e x u Pe) as [Hu _]. now rewrite (W3 u Hu i Hi).
+Qed.
+
+(* the producer of a path is unique among the tasks of a well-ordered history *)
+Lemma producer_unique h : WO h -> forall x t, In t h -> outs_has t x = true -> producer h x = Some t.
+Proof.
+  induction h as [|u e IH]; intros W x t Hin Ho; [destruct Hin|]. simpl.
+  destruct W as [_ [W2 [_ W4]]].
+  destruct (outs_has u x) eqn:E.
+  - destruct Hin as [->|Hin]; [reflexivity|]. exfalso. apply (W2 x E). exists t. auto.
+  - destruct Hin as [<-|Hin]; [congruence|]. apply IH; auto.
+Qed.
+
+(* a measure that decreases from a path to the inputs of its producer *)
+Fixpoint depth (h : list atask) (x : nat) : nat :=
+  match h with [] => 0 | t :: e => if outs_has t x then S (length e) else depth e x end.
+
+Lemma depth_le h x : depth h x <= length h.
+Proof. induction h as [|t e IH]; simpl; auto. destruct (outs_has t x); lia. Qed.
+
+Lemma depth_lt h : WO h -> forall x t i, producer h x = Some t -> In i (at_ins t) -> depth h i < depth h x.
+Proof.
+  induction h as [|u e IH]; intros W x t i Pr Hi; simpl in *; [discriminate|].
+  destruct W as [W1 [W2 [W3 W4]]].
+  destruct (outs_has u x) eqn:E.
+  - injection Pr as <-. rewrite (W1 i Hi). pose proof (depth_le e i). lia.
+  - destruct (producer_in e x t Pr) as [Ht _]. rewrite (W3 t Ht i Hi). eapply IH; eauto.
+Qed.
+
+(* two well-ordered histories made of the same tasks -- e.g. an uninterrupted run and a run that was interrupted,
+   resumed, and executed its tasks in another order -- record the same lineage on every path *)
+Theorem lineage_order_independent h1 h2 :
+  WO h1 -> WO h2 -> (forall t, In t h1 <-> In t h2) -> forall x, lin h1 x = lin h2 x.
+Proof.
+  intros W1 W2 Same x.
+  remember (depth h1 x) as n eqn:En. revert x En.
+  induction n as [n IH] using lt_wf_ind. intros x En.
+  rewrite (lin_fixpoint h1 W1 x), (lin_fixpoint h2 W2 x).
+  destruct (producer h1 x) as [t|] eqn:P1.
+  - destruct (producer_in h1 x t P1) as [Hin Ho].
+    rewrite (producer_unique h2 W2 x t (proj1 (Same t) Hin) Ho).
+    f_equal. apply map_ext_in. intros i Hi. f_equal.
+    apply (IH (depth h1 i)); auto. subst n. eapply depth_lt; eauto.
+  - destruct (producer h2 x) as [t|] eqn:P2; [|reflexivity].
+    exfalso. destruct (producer_in h2 x t P2) as [Hin Ho].
+    apply (producer_none h1 x P1). exists t. split; [apply Same; exact Hin|exact Ho].
+Qed.
+
 End Lineage.
